@@ -262,7 +262,23 @@ def wrap_paragraph_lines(
         # a line with a pipe would turn both into a table.
         for i in range(1, len(lines)):
             if "|" in lines[i - 1] and _table_delimiter_row_pat.match(lines[i]):
-                lines[i] = "\\" + lines[i]
+                escaped = "\\" + lines[i]
+                if " " in lines[i] and subsequent_offset + len_fn(escaped) > width:
+                    # With the backslash the line no longer fits: fill the rest of the
+                    # paragraph again, so that formatting the result changes nothing.
+                    lines[i:] = wrap_paragraph_lines(
+                        " ".join([escaped, *lines[i + 1 :]]),
+                        width,
+                        initial_column=subsequent_offset,
+                        subsequent_offset=subsequent_offset,
+                        replace_whitespace=replace_whitespace,
+                        drop_whitespace=drop_whitespace,
+                        splitter=splitter,
+                        len_fn=len_fn,
+                        is_markdown=True,
+                    )
+                    break
+                lines[i] = escaped
 
     return lines
 
